@@ -180,6 +180,34 @@ def run(tier):
     ck.extra["block_rule"] = ck.rule
     ck.rule = rule0 + " (e) block strings: see coverage.block_rule"
     if br.ok:
+        # (g) print_schema.print_description vs Lang/Description.v (the theorem C08_description_roundtrip is about it)
+        from graphql.utilities.print_schema import print_description
+        from graphql import GraphQLEnumValue
+        mb = Model("blockstring")
+        dn = 4 if tier == "quick" else 5
+        dvals = ["".join(x) for x in common.strings_upto(["a", " ", "\n", '"', "\\", "\t", "\r", "\u00e9"], dn)]
+        dvals += ['"""', 'a"""b', " a\n  b", "\n", "a\n", "a\n\nb", "\x07", "\x7f", "\U0001f600", "\u2028x"]
+        dcases, dmeta = [], []
+        for v in dvals:
+            for ind in ("", "  ", "\t "):
+                dcases.append([7, len(ind)] + cps(ind) + cps(v))
+                dmeta.append((v, ind))
+        for (v, ind), r in zip(dmeta, mb.run_batch(dcases)):
+            want = common.from_cps(r)
+            for fib in (True, False):
+                ck.evaluations += 1
+                try:
+                    got = print_description(GraphQLEnumValue(description=v), ind, fib)
+                except Exception as ex:  # noqa: BLE001
+                    got = f"raised {type(ex).__name__}"
+                pre = "\n" + ind if ind and not fib else ind
+                if got != pre + want + "\n":
+                    ck.violation(f"description:{v!r}:{ind!r}:{fib}",
+                                 f"print_description({v!r}, indentation={ind!r}) differs from the model text",
+                                 {"relation": "print_description = prefix + Description.print_description_text + LF",
+                                  "value": cps(v), "indent": cps(ind), "impl": got, "model": pre + want + "\n"})
+            ck.note_case(("desc", v, ind), nontrivial=("\n" in v or '"' in v or "\\" in v))
+        ck.count("description_cases", len(dcases))
         # tokens_of(model tree) vs re-lexed print_ast(impl tree), parse(print_ast d) == d, whole trees
         from . import cparser
         rule1 = ck.rule
